@@ -12,6 +12,7 @@ package main
 import (
 	"bytes"
 	"encoding/json"
+	stdcmp "cmp"
 	stderrors "errors"
 	"fmt"
 	"os"
@@ -94,6 +95,12 @@ type ldFile struct {
 	Dir      []int       `json:"dir,omitempty"`
 	Version  int         `json:"version"` // 3 → '3', 31 → '3.1', 0 → no version key
 	Dotenv   bool        `json:"dotenv,omitempty"`
+	Silent   bool        `json:"silent,omitempty"` // file-level defaults for the tasks of the file …
+	Method   int         `json:"method,omitempty"` // 0 = not declared, 1 checksum, 2 timestamp, 3 none
+	Run      int         `json:"run,omitempty"`    // 0 = not declared, 1 always, 2 once, 3 when_changed
+	Set      int         `json:"set,omitempty"`    // bit set over ldSetPool
+	Shopt    int         `json:"shopt,omitempty"`  // bit set over ldShoptPool
+	Output   int         `json:"output,omitempty"` // … and the output style: 0 = not set, 1 interleaved, 2 group, 3 prefixed
 	Vars     []ldVar     `json:"vars,omitempty"`
 	Env      []ldVar     `json:"env,omitempty"`
 	Includes []ldInclude `json:"includes,omitempty"`
@@ -116,7 +123,59 @@ var attrNames = [nAttrs]string{"silent", "interactive", "ignore_error", "watch",
 	"summary", "platforms", "sources", "generates", "status", "preconditions", "set", "shopt", "env", "dotenv", "prompt", "requires"}
 
 // number of non-zero variants of each attribute
-var attrVariants = [nAttrs]int{1, 1, 1, 1, 3, 3, 3, 3, 3, 3, 3, 2, 2, 2, 2, 2, 2, 2, 2, 2, 2}
+// (set and shopt are bit sets over their option pools: every non-empty subset is a variant)
+var attrVariants = [nAttrs]int{1, 1, 1, 1, 3, 3, 3, 3, 3, 3, 3, 2, 2, 2, 2, 7, 3, 2, 2, 2, 2}
+
+const (
+	posSet   = 15
+	posShopt = 16
+)
+
+var (
+	ldSetPool    = []string{"errexit", "pipefail", "nounset"}
+	ldShoptPool  = []string{"globstar", "nullglob"}
+	ldMethods    = []string{"", "checksum", "timestamp", "none"}
+	ldRuns       = []string{"", "always", "once", "when_changed"}
+	ldOutputs    = []string{"", "interleaved", "group", "prefixed"}
+)
+
+func maskList(pool []string, mask int) string {
+	var out []string
+	for i, o := range pool {
+		if mask&(1<<i) != 0 {
+			out = append(out, o)
+		}
+	}
+	return "[" + strings.Join(out, ", ") + "]"
+}
+
+// listMask: the bit set of a list of options (order and repetitions do not matter: UniqueJoin
+// sorts and compacts); an option outside the pool gives 999
+func listMask(pool []string, l []string) int {
+	m := 0
+	for _, o := range l {
+		found := false
+		for i, p := range pool {
+			if o == p {
+				m |= 1 << i
+				found = true
+			}
+		}
+		if !found {
+			return 999
+		}
+	}
+	return m
+}
+
+func nameIndex(pool []string, s string) int {
+	for i, p := range pool {
+		if p == s {
+			return i
+		}
+	}
+	return 999
+}
 
 func dirName(seg int) string { return "d" + strconv.Itoa(seg) }
 func keyName(k int) string   { return "K" + strconv.Itoa(k) }
@@ -163,9 +222,9 @@ func attrYAML(i, k int) string {
 	case "preconditions":
 		return []string{"", `preconditions: [{sh: "test -f pc1", msg: "m1"}]`, `preconditions: ["true"]`}[k]
 	case "set":
-		return []string{"", `set: [errexit]`, `set: [pipefail, nounset]`}[k]
+		return "set: " + maskList(ldSetPool, k)
 	case "shopt":
-		return []string{"", `shopt: [globstar]`, `shopt: [nullglob, globstar]`}[k]
+		return "shopt: " + maskList(ldShoptPool, k)
 	case "env":
 		return []string{"", `env: {EK: "e1"}`, `env: {EK: "e2", EL: "x"}`}[k]
 	case "dotenv":
@@ -209,6 +268,24 @@ func fileYAML(f *ldFile, pathOf func(id int) string) string {
 	}
 	if f.Dotenv {
 		b.WriteString("dotenv: ['.env']\n")
+	}
+	if f.Silent {
+		b.WriteString("silent: true\n")
+	}
+	if f.Method != 0 {
+		b.WriteString("method: " + ldMethods[f.Method] + "\n")
+	}
+	if f.Run != 0 {
+		b.WriteString("run: " + ldRuns[f.Run] + "\n")
+	}
+	if f.Set != 0 {
+		b.WriteString("set: " + maskList(ldSetPool, f.Set) + "\n")
+	}
+	if f.Shopt != 0 {
+		b.WriteString("shopt: " + maskList(ldShoptPool, f.Shopt) + "\n")
+	}
+	if f.Output != 0 {
+		b.WriteString("output: " + ldOutputs[f.Output] + "\n")
 	}
 	varsYAML(&b, "", "vars", f.Vars)
 	varsYAML(&b, "", "env", f.Env)
@@ -346,6 +423,14 @@ func decodeAttrs(t *ast.Task) []int {
 	out := make([]int, nAttrs)
 	for i := 0; i < nAttrs; i++ {
 		out[i] = 999
+		if i == posSet {
+			out[i] = listMask(ldSetPool, t.Set)
+			continue
+		}
+		if i == posShopt {
+			out[i] = listMask(ldShoptPool, t.Shopt)
+			continue
+		}
 		for k, s := range attrTable[i] {
 			if s == c[i] {
 				out[i] = k
@@ -653,6 +738,10 @@ func loadOnce(root string, ids map[string]int, probe int, keys []int) (res ldLoa
 		for _, a := range decodeAttrs(t) {
 			fmt.Fprintf(&sb, " %d", a)
 		}
+		// what the task executes with: the executor's own lookups (task.go, hash.go, status.go)
+		fmt.Fprintf(&sb, " EF %s %d %d %d %d", b2s(t.Silent || tf.Silent), nameIndex(ldMethods, stdcmp.Or(t.Method, tf.Method)),
+			nameIndex(ldRuns, stdcmp.Or(t.Run, tf.Run)), listMask(ldSetPool, append(append([]string{}, tf.Set...), t.Set...)),
+			listMask(ldShoptPool, append(append([]string{}, tf.Shopt...), t.Shopt...)))
 		fmt.Fprintf(&sb, " TV %s IV %s XV %s", varsDump(root, t.Vars), varsDump(root, t.IncludeVars), varsDump(root, t.IncludedTaskfileVars))
 		if probe > 0 && idx%probe == 0 {
 			fmt.Fprintf(&pb, " %d %s", idx, probeTask(e, root, name, keys))
@@ -668,6 +757,8 @@ func loadOnce(root string, ids map[string]int, probe int, keys []int) (res ldLoa
 		fmt.Fprintf(&rb, " T %s L %d R %s", key, locID(t), namesDump(refs))
 	}
 	fmt.Fprintf(&sb, " V %s E %s", varsDump(root, tf.Vars), varsDump(root, tf.Env))
+	fmt.Fprintf(&sb, " FD %s %d %d %d %d O %d", b2s(tf.Silent), nameIndex(ldMethods, tf.Method), nameIndex(ldRuns, tf.Run),
+		listMask(ldSetPool, tf.Set), listMask(ldShoptPool, tf.Shopt), nameIndex(ldOutputs, tf.Output.Name))
 	pr := ""
 	if probe > 0 {
 		pr = fmt.Sprintf(" PR %d%s", probed, pb.String())
@@ -738,7 +829,8 @@ func loadCaseLine(d *ldCase) string {
 	}
 	for i := range d.Files {
 		f := &d.Files[i]
-		fmt.Fprintf(&b, " %d %d %s %s %s %s %d", f.ID, f.Version, b2s(f.Dotenv), natsTok(f.Dir), varsTok(f.Vars), varsTok(f.Env), len(f.Includes))
+		fmt.Fprintf(&b, " %d %d %s %s %d %d %d %d %d %s %s %s %d", f.ID, f.Version, b2s(f.Dotenv), b2s(f.Silent), f.Method, f.Run, f.Set, f.Shopt,
+			f.Output, natsTok(f.Dir), varsTok(f.Vars), varsTok(f.Env), len(f.Includes))
 		for _, inc := range f.Includes {
 			fmt.Fprintf(&b, " %s %d %s %s %s %s %s %s %s %s", hx(inc.NS), inc.File, natsTok(inc.Dir), b2s(inc.Optional), b2s(inc.Internal),
 				b2s(inc.Flatten), b2s(inc.Advanced), namesDump(inc.Aliases), namesDump(inc.Excludes), varsTok(inc.Vars))
@@ -796,7 +888,9 @@ func absSegs(d string) []int {
 // abstractFile maps a decoded Taskfile back to the abstract form; include targets are
 // resolved through byPath (path relative to the tree root → id).
 func abstractFile(f *ldFile, tf *ast.Taskfile, byPath map[string]int) ldFile {
-	g := ldFile{ID: f.ID, Base: f.Base, Dir: f.Dir, Dotenv: len(tf.Dotenv) > 0, Vars: loadAbsVars(tf.Vars), Env: loadAbsVars(tf.Env)}
+	g := ldFile{ID: f.ID, Base: f.Base, Dir: f.Dir, Dotenv: len(tf.Dotenv) > 0, Vars: loadAbsVars(tf.Vars), Env: loadAbsVars(tf.Env),
+		Silent: tf.Silent, Method: nameIndex(ldMethods, tf.Method), Run: nameIndex(ldRuns, tf.Run), Set: listMask(ldSetPool, tf.Set),
+		Shopt: listMask(ldShoptPool, tf.Shopt), Output: nameIndex(ldOutputs, tf.Output.Name)}
 	if tf.Version != nil {
 		g.Version = int(tf.Version.Major())
 		if tf.Version.Minor() != 0 {
@@ -1035,6 +1129,13 @@ var (
 	ldAliases    = []string{"al1", "al2", "a", "x", "n2"}
 )
 
+func b2i(b bool) int {
+	if b {
+		return 1
+	}
+	return 0
+}
+
 func (c *Ctx) chance(p int) bool { return c.Rng.Intn(100) < p }
 
 func (c *Ctx) pickSome(pool []string, max int) []string {
@@ -1260,6 +1361,36 @@ func (c *Ctx) genTree(cfg ldGenCfg) ldCase {
 		}
 		g.f.Vars = c.genVars(3)
 		g.f.Env = c.genVars(2)
+		// file-level defaults for the tasks of the file, and the output style
+		if c.chance(45) {
+			if c.chance(40) {
+				g.f.Silent = true
+				c.Hit("filedefault:silent")
+			}
+			if c.chance(40) {
+				g.f.Method = 1 + c.Rng.Intn(3)
+				c.Hit("filedefault:method")
+			}
+			if c.chance(40) {
+				g.f.Run = 1 + c.Rng.Intn(3)
+				c.Hit("filedefault:run")
+			}
+			if c.chance(40) {
+				g.f.Set = 1 + c.Rng.Intn(7)
+				c.Hit("filedefault:set")
+			}
+			if c.chance(40) {
+				g.f.Shopt = 1 + c.Rng.Intn(3)
+				c.Hit("filedefault:shopt")
+			}
+			if i > 0 {
+				c.Hit("filedefault:in-included-file")
+			}
+		}
+		if c.chance(25) {
+			g.f.Output = 1 + c.Rng.Intn(3)
+			c.Hit("output:" + []string{"root", "included"}[b2i(i > 0)])
+		}
 		gf[i] = g
 	}
 	// structure: every file but the root has at least one parent among the earlier files
